@@ -273,14 +273,19 @@ fn one_pure(c: &Cli, dir: &std::path::Path, k: usize, reuse: Option<&Cli>) -> Op
 
 fn one(ctx: &mut Ctx, c: &Cli, dir: &std::path::Path, k: usize, reuse: Option<&Cli>) {
     let r = one_pure(c, dir, k, reuse);
-    record(ctx, c, r);
+    record(ctx, c, reuse, r);
 }
 
-fn record(ctx: &mut Ctx, c: &Cli, r: Option<(String, String)>) {
+fn record(ctx: &mut Ctx, c: &Cli, reuse: Option<&Cli>, r: Option<(String, String)>) {
     ctx.eval();
     ctx.nontrivial(&format!("{}|{}|{}|{:.0}", c.method, c.end - c.start, c.start % 1000, c.lat));
     if let Some((obs, req)) = r {
-        ctx.fail(c.json(), obs, req);
+        let mut input = c.json();
+        if let Some(prev) = reuse {
+            // the run was made on paths that already held the files of this earlier run
+            input["reused_paths_of"] = prev.json();
+        }
+        ctx.fail(input, obs, req);
     }
 }
 
@@ -302,7 +307,8 @@ pub fn c19(ctx: &mut Ctx, tier: &str, r: &mut Rng, js: &[Value], _reqs: &[String
     let dir = scratch();
     for (k, v) in js.iter().enumerate() {
         if let Some(c) = Cli::from_json(v) {
-            one(ctx, &c, &dir, 9000 + k, None);
+            let prev = v.get("reused_paths_of").and_then(Cli::from_json);
+            one(ctx, &c, &dir, 9000 + k, prev.as_ref());
         }
     }
     if replay_only {
@@ -348,9 +354,9 @@ pub fn c19(ctx: &mut Ctx, tier: &str, r: &mut Rng, js: &[Value], _reqs: &[String
             });
         }
     });
-    for (i, (c, _)) in cases.iter().enumerate() {
+    for (i, (c, _reuse)) in cases.iter().enumerate() {
         let res = results[i].lock().unwrap().take().unwrap_or(None);
-        record(ctx, c, res);
+        record(ctx, c, cases[i].1.as_ref(), res);
     }
     // invalid values just outside each range, malformed values, reversed or malformed dates
     let ok = Cli { method: 5, lat: 39., lon: -77., elev: 0., gmt: -5., start: rd_of(2023, 2, 6), end: rd_of(2023, 2, 6) };
